@@ -25,13 +25,15 @@ Record config := mkCfg {
   clone_shares : bool;  (* Clone() copies the pointer to the run's cell (b731f6b); else the clone has its own *)
   reset_clears : bool;  (* resetForNewCode stores 0 into the VM's halt cell (before b00ed5e) *)
   push_guard   : bool;  (* push stores before it increments sp (7c03eb9) *)
-  err_drops    : bool   (* proposed: a failed Run/RunCode/Call drops what it left on the stack *)
+  start_drops  : bool   (* start() drops what earlier invocations left on the operand stack (c13bc4b) *)
 }.
-Definition cfg_current  := mkCfg true  true  false true  false.
+(* the code with the two halt-flag repairs and the push repair; d = start() empties the stack *)
+Definition cfgd (d : bool) := mkCfg true true false true d.
+Definition cfg_current  := cfgd true.
+Definition cfg_nodrop   := cfgd false.                            (* before c13bc4b *)
 Definition cfg_pinned   := mkCfg false false true  false false.   (* the pinned tree *)
 Definition cfg_nopush   := mkCfg true  true  false false false.   (* before 7c03eb9 *)
-Definition cfg_noclone  := mkCfg true  false false true  false.   (* before b731f6b *)
-Definition cfg_proposed := mkCfg true  true  false true  true.
+Definition cfg_noclone  := mkCfg true  false false true  true.    (* without b731f6b *)
 
 Definition MaxStack := 1024.
 Definition MaxFrames := 1024.
@@ -90,7 +92,7 @@ Definition new_vm (cfg : config) (e : env) : vm * env :=
   if per_run_flag cfg then (mkVm None false 0 0 0, e)
   else let (k, e') := alloc_cell e in (mkVm (Some k) false 0 0 0, e').
 
-(* start(): refuse when running; count; give the run its flag; arm the watcher *)
+(* start(): refuse when running; count; empty the operand stack; give the run its flag; arm the watcher *)
 Definition start (cfg : config) (c : nat) (v : vm) (e : env) : option (vm * env) :=
   if running v then None
   else
@@ -100,7 +102,7 @@ Definition start (cfg : config) (c : nat) (v : vm) (e : env) : option (vm * env)
            | Some k => (k, clear_cell k e)
            | None => alloc_cell e
            end in
-    Some (mkVm (Some k) true (S (startCount v)) (H v) (FP v), arm c k e1).
+    Some (mkVm (Some k) true (S (startCount v)) (if start_drops cfg then 0 else H v) (FP v), arm c k e1).
 
 (* ------------------------------------------------------------------ programs *)
 Inductive expr :=
@@ -307,12 +309,9 @@ Definition run_inv (cfg : config) (e : env) (g : Z) (v : vm) (i : inv) : outcome
         | _ => eval cfg (halt v2) (ictx i) (ibody i) s0
         end in
       let o := outcome_of r in
-      let h' := if err_drops cfg && is_err o then
-                  (match iapi i with ARunCode => 0 | _ => Nat.min (H v2) (sH s1) end)
-                else sH s1 in
       match r with
       | RDiverge => (o, sE s1, sG s1, mkVm (halt v2) true (startCount v2) (sH s1) (sFP s1))
-      | _ => (o, sE s1, sG s1, mkVm (halt v2) false (startCount v2) h' (sFP s1))   (* deferred stop() *)
+      | _ => (o, sE s1, sG s1, mkVm (halt v2) false (startCount v2) (sH s1) (sFP s1))   (* deferred stop() *)
       end
   end.
 
@@ -356,10 +355,10 @@ Fixpoint hmax (e : expr) : nat :=
 
 (* programs used by the generator and the witnesses *)
 Fixpoint deep (n : nat) : expr := match n with 0 => Lit 0 | S m => CallE (deep m) end.
-(* func fact(n) { if n <= 1 { return 1 }; return n * fact(n-1) } : the test and the argument need three slots above the
+(* func fact(n) { if n <= 1 { return 1 }; return n * fact(n-1) } : the test, the callee and its argument need four slots above the
    pending operands of the callers, so the operand stack is exhausted before the frame array is *)
 Fixpoint fact (n : nat) : expr :=
-  match n with 0 => Lit 1 | S m => CallE (Seq (Bin (Lit 1) (Bin (Lit 1) (Lit 1))) (Bin (Lit 2) (fact m))) end.
+  match n with 0 => Lit 1 | S m => CallE (Seq (Bin (Lit 1) (Bin (Lit 1) (Bin (Lit 1) (Lit 1)))) (Bin (Lit 2) (fact m))) end.
 Fixpoint at_depth (d : nat) (e : expr) : expr := match d with 0 => e | S m => CallE (at_depth m e) end.
 
 Definition differs (cfg : config) (b : obs) : bool :=
